@@ -144,6 +144,14 @@ def oracle_filter(ck, rng):
                 fails.append("call-history")
             if 0 < cutoff < 0.5 * np.sqrt(3) and np.abs((a + h1) - x).max() > 1e-4 * max(1, np.abs(x).max()):
                 fails.append("low+high")
+        if a.shape == sh and i % 2 == 0:
+            # integer-valued images (raw tomograms are often int8/int16): the filter is real-valued whatever the input type
+            xi = np.round(x * 40).astype([np.int16, np.uint8, np.int8][i % 3] if i % 3 else np.int16)
+            refi = np.fft.ifftn(np.fft.fftn(xi.astype(np.float64)) * W).real
+            for nm_, oi in (("numpy", lu(xi, cutoff, order)), ("pipe", pipe.lowpass_filter(cutoff, order).convert(xi, 1.0)), ("backend", xp.lowpass_filter(xi, cutoff, order))):
+                oi = np.asarray(oi)
+                if oi.shape != sh or np.abs(oi - refi).max() > 2e-3 * max(1, np.abs(refi).max()):
+                    fails.append(f"integer-image-{nm_}")
         ck.oracle_count("filter_laws", 1, 1)
         for fl in fails:
             ck.violation(what=f"low-pass filter law violated: {fl}", inp=c, key={"site": "filter", "law": fl, "odd_last": sh[2] % 2 == 1},
